@@ -56,7 +56,7 @@ def gen(rng):
         c['clip'] = [rng.randint(lo, 0) , rng.randint(0, hi)]
         if rng.random() < 0.15 and c['clip'][0] != c['clip'][1]: c['clip'] = c['clip'][::-1]     # (a_min > a_max: NumPy defines the result as minimum(maximum(x, a_min), a_max))
         # how the bounds are given: Python floats, one side only, NumPy integers of a narrow type (integral bounds), fixed-point objects
-        c['clip_kind'] = rng.choice(['float', 'float', 'lower_only', 'upper_only', 'npint', 'fxp', 'fxp', 'kw']); c['vpath'] = rng.random() < 0.5
+        c['clip_kind'] = rng.choice(['float', 'float', 'lower_only', 'upper_only', 'npint', 'fxp', 'fxp', 'kw', 'mixed_kw']); c['vpath'] = rng.random() < 0.5
     if op == 'transpose' and rng.random() < 0.6:
         perm = list(range(len(shape))); rng.shuffle(perm); c['axes'] = perm
     return c
@@ -127,6 +127,7 @@ def run_cases(cases, res):
                 if kind == 'lower_only': z = x.clip(ba, None) if meth else np.clip(x, ba, None); b = hi_code(s, nw)
                 elif kind == 'upper_only': z = x.clip(None, bb) if meth else np.clip(x, None, bb); a = lo_code(s, nw)
                 elif kind == 'kw': z = x.clip(a_min=ba, a_max=bb) if meth else np.clip(x, min=ba, max=bb)
+                elif kind == 'mixed_kw': z = (x.clip(ba, max=bb) if c.get('vpath') else x.clip(min=ba, a_max=bb)) if meth else (np.clip(x, ba, max=bb) if c.get('vpath') else np.clip(x, min=ba, max=bb))      # (one bound positional or under the old name, the other under the new one)
                 elif kind == 'fxp' and c.get('vpath'): z = x.clip(ba, bb, method='repr')      # fixed-point bounds on the value path
                 else: z = x.clip(ba, bb) if meth else np.clip(x, ba, bb)
                 exact = np.clip(arr.astype(np.int64), a, b).astype(object) * lsb; want_fmt = (s, nw, nf)
